@@ -93,6 +93,26 @@ def run(ctx):
             v, f = ev.call_function(q, [arg])
             v2, _ = ev.call_function(q, [arg], {'testnet': T.FALSE})
             same_term(ob, v, v2, '%s defaults to mainnet' % q.split('.')[-1], p.get_function(q).where)
+    # the network flag is used for its truth value (today: `x if testnet else y`): any true flag selects testnet, any false
+    # one mainnet - also a flag that is not literally True / False (1, "1", ...)
+    with ctx.obligation('C05.FLAG', 'network flag as a truth value', None, p.get_function('helper.h160_to_p2pkh_address').where) as ob:
+        ev = Evaluator(p, 'ecdsa')
+        h = S('h', type='bytes', len=20)
+        h32 = S('h32', type='bytes', len=32)
+        flag = S('flag')                 # no declared type
+        tv = T.truth(flag)
+        for q, arg, t_, m_ in (('helper.h160_to_p2pkh_address', h, SP.b58check(T.cat(T.const(b'\x6f'), h)), SP.b58check(T.cat(T.const(b'\x00'), h))),
+                               ('helper.h160_to_p2sh_address', h, SP.b58check(T.cat(T.const(b'\xc4'), h)), SP.b58check(T.cat(T.const(b'\x05'), h))),
+                               ('helper.h160_to_p2wpkh_address', h, bech32('tb', 0, h), bech32('bc', 0, h)),
+                               ('helper.h256_to_p2wsh_address', h32, bech32('tb', 0, h32), bech32('bc', 0, h32))):
+            v, f = ev.call_function(q, [arg], {'testnet': flag})
+            same_term(ob, v, T.phi(tv, t_, m_), '%s selects the network by the truth value of the flag' % q.split('.')[-1],
+                      p.get_function(q).where)
+        kk = S('kb', type='bytes', len=32)
+        pk = mk_priv(p, 'ecdsa', kk)
+        v, f = ev.call_function('keys.PrivateKey.wif', [pk], {'testnet': flag}, facts=Facts(closure([T.raw_op('VALID_SK', kk)])))
+        same_term(ob, v, T.phi(tv, SP.b58check(T.cat(T.const(b'\xef'), kk, T.const(b'\x01'))), SP.b58check(T.cat(T.const(b'\x80'), kk, T.const(b'\x01')))),
+                  'PrivateKey.wif selects the network by the truth value of the flag', p.get_function('keys.PrivateKey.wif').where)
     check_addresses(ctx)
     # ---------------------------------------------------------------- PublicKey.address / h160
     fa = p.get_function('keys.PublicKey.address')
@@ -183,10 +203,11 @@ def run(ctx):
             same_term(ob, v, exp, q.split('.')[-1], p.get_function(q).where)
         rm = p.get_function('ripemd.ripemd160')
         callers = p.callers_of(rm)
-        for cs in callers:
-            ok = cs.caller is not None and (cs.caller.qual.endswith('helper.hash160') or cs.caller.module.name.endswith('ripemd'))
-            ob.require(ok, 'ripemd160 is called outside hash160', cs.where, found=repr(cs))
-        ob.require(any(cs.caller is fh for cs in callers), 'hash160 calls the bundled ripemd160', fh.where)
+        # (who calls the bundled implementation is not part of the property: hash160's value term above is; whether it is
+        # reached through the bundled code - decided below - or through OpenSSL's RIPEMD-160 - trusted - is noted)
+        ob.note('callers of the bundled ripemd160: %s' % sorted({(cs.caller.qual[len(PKG) + 1:] if cs.caller is not None else '<module level>')
+                                                                  for cs in callers}))
+        ob.evaluations += 1
     _ripemd(ctx)
 
 
